@@ -415,6 +415,7 @@ type rField struct {
 	goName, clover, json string
 	sub                  []rField // nil = not a struct
 	ptr                  bool     // the nested struct sits behind a pointer
+	kind                 string   // "" = the field IS the struct sub (or a leaf); "list" / "map" = a slice / a map of such structs; "embedded" = anonymous field
 }
 
 func rTypeOf(fs []rField) reflect.Type {
@@ -433,8 +434,14 @@ func rTypeOf(fs []rField) reflect.Type {
 			if f.ptr {
 				t = reflect.PtrTo(t)
 			}
+			switch f.kind {
+			case "list":
+				t = reflect.SliceOf(t)
+			case "map":
+				t = reflect.MapOf(reflect.TypeOf(""), t)
+			}
 		}
-		sf = append(sf, reflect.StructField{Name: f.goName, Type: t, Tag: reflect.StructTag(strings.TrimSpace(tag))})
+		sf = append(sf, reflect.StructField{Name: f.goName, Type: t, Tag: reflect.StructTag(strings.TrimSpace(tag)), Anonymous: f.kind == "embedded"})
 	}
 	return reflect.StructOf(sf)
 }
@@ -448,6 +455,34 @@ func rDesc(fs []rField) interface{} {
 		out = append(out, []interface{}{hx(f.goName), hx(f.clover), hx(f.json), rDesc(f.sub)})
 	}
 	return out
+}
+
+// the descriptor of Model/Unmarshal2.lean: {"s": [[go, clover, json, embedded, type] ...]}, {"l": type}, {"m": type}, null
+func rDesc2(fs []rField) interface{} {
+	out := []interface{}{}
+	for _, f := range fs {
+		var t interface{}
+		if f.sub != nil {
+			t = rDesc2(f.sub)
+			switch f.kind {
+			case "list":
+				t = J{"l": t}
+			case "map":
+				t = J{"m": t}
+			}
+		}
+		out = append(out, []interface{}{hx(f.goName), hx(f.clover), hx(f.json), f.kind == "embedded", t})
+	}
+	return J{"s": out}
+}
+
+func rHasNewKinds(fs []rField) bool {
+	for _, f := range fs {
+		if f.kind != "" || (f.sub != nil && rHasNewKinds(f.sub)) {
+			return true
+		}
+	}
+	return false
 }
 
 // within one struct the stored names are distinct and so are the names json reads (a struct violating this
@@ -494,8 +529,31 @@ func genRFields1(g *Gen, depth int) []rField {
 		if depth > 0 && g.pick(3) == 0 {
 			f.sub = genRFields(g, depth-1)
 			f.ptr = g.pick(2) == 0
+			f.kind = []string{"", "", "list", "map"}[g.pick(4)]
 		}
 		fs = append(fs, f)
+	}
+	if depth > 0 && g.pick(4) == 0 {
+		// one embedded struct: its fields are flattened into this struct's document; their names come from a pool of their
+		// own, so that no promoted field's stored name is another field's json name (see Proofs/Unmarshal2.lean `cross`)
+		es := []rField{}
+		for i := 0; i < 1+g.pick(3); i++ {
+			e := rField{goName: []string{"P", "Q", "R"}[i]}
+			if g.pick(3) != 0 {
+				e.clover = []string{"p", "pp", "e1"}[i]
+			}
+			if g.pick(3) == 0 {
+				e.json = []string{"jp", "jq", "jr"}[i]
+			}
+			if g.pick(4) == 0 {
+				e.sub = []rField{{goName: "N", clover: "num"}}
+				e.kind = []string{"", "list"}[g.pick(2)]
+			}
+			es = append(es, e)
+		}
+		emb := rField{goName: "Emb", sub: es, kind: "embedded", ptr: false}
+		pos := g.pick(len(fs) + 1)
+		fs = append(fs[:pos], append([]rField{emb}, fs[pos:]...)...)
 	}
 	return fs
 }
@@ -511,9 +569,28 @@ func genRDoc(g *Gen, fs []rField) map[string]interface{} {
 		if f.clover != "" {
 			key = f.clover
 		}
-		if f.sub != nil && g.pick(6) != 0 {
+		switch {
+		case f.kind == "embedded":
+			for k, v := range genRDoc(g, f.sub) {
+				if _, clash := m[k]; !clash {
+					m[k] = v
+				}
+			}
+		case f.sub != nil && f.kind == "list" && g.pick(6) != 0:
+			l := []interface{}{}
+			for n := g.pick(3); n > 0; n-- {
+				l = append(l, genRDoc(g, f.sub))
+			}
+			m[key] = l
+		case f.sub != nil && f.kind == "map" && g.pick(6) != 0:
+			mm := map[string]interface{}{}
+			for n := g.pick(3); n > 0; n-- {
+				mm[fmt.Sprint("k", n)] = genRDoc(g, f.sub)
+			}
+			m[key] = mm
+		case f.sub != nil && f.kind == "" && g.pick(6) != 0:
 			m[key] = genRDoc(g, f.sub)
-		} else {
+		default:
 			m[key] = int64(g.pick(100))
 		}
 	}
@@ -523,10 +600,10 @@ func genRDoc(g *Gen, fs []rField) map[string]interface{} {
 	return m
 }
 
-// every key of every level moves to a distinct target (otherwise Go's map iteration order decides)
+// every key of every level moves to a distinct target (otherwise Go's map iteration order decides); the fields of an
+// embedded struct are renamed in a pass of their own over the same map
 func rCollisionFree(fs []rField, m map[string]interface{}) bool {
-	rm := map[string]string{}
-	for _, f := range fs {
+	names := func(f rField) (string, string) {
 		from, to := f.goName, f.goName
 		if f.clover != "" {
 			from = f.clover
@@ -534,46 +611,78 @@ func rCollisionFree(fs []rField, m map[string]interface{}) bool {
 		if f.json != "" {
 			to = f.json
 		}
-		if from != to {
-			rm[from] = to
-		} else {
-			delete(rm, from)
-		}
+		return from, to
 	}
-	// (a later field with the same source key overwrites the entry: mirror the Go map)
-	rm = map[string]string{}
-	for _, f := range fs {
-		from, to := f.goName, f.goName
-		if f.clover != "" {
-			from = f.clover
+	// one renaming pass over a key set; false on a collision
+	pass := func(keys map[string]bool, fields []rField) (map[string]bool, bool) {
+		rm := map[string]string{}
+		for _, f := range fields {
+			if from, to := names(f); from != to {
+				rm[from] = to // a later field with the same source key overwrites the entry: the Go map
+			}
 		}
-		if f.json != "" {
-			to = f.json
+		out := map[string]bool{}
+		for k := range keys {
+			t := k
+			if r, ok := rm[k]; ok && r != "" {
+				t = r
+			}
+			if out[t] {
+				return nil, false
+			}
+			out[t] = true
 		}
-		if from != to {
-			rm[from] = to
-		}
+		return out, true
 	}
-	seen := map[string]bool{}
+	keys := map[string]bool{}
 	for k := range m {
-		t := k
-		if r, ok := rm[k]; ok && r != "" {
-			t = r
+		keys[k] = true
+	}
+	keys, ok := pass(keys, fs)
+	if !ok {
+		return false
+	}
+	var nested func(fields []rField, at map[string]interface{}) bool
+	nested = func(fields []rField, at map[string]interface{}) bool {
+		for _, f := range fields {
+			if f.sub == nil || f.kind == "embedded" {
+				continue
+			}
+			from, _ := names(f)
+			switch v := at[from].(type) {
+			case map[string]interface{}:
+				if f.kind == "map" {
+					for _, e := range v {
+						if em, isMap := e.(map[string]interface{}); isMap && !rCollisionFree(f.sub, em) {
+							return false
+						}
+					}
+				} else if f.kind == "" && !rCollisionFree(f.sub, v) {
+					return false
+				}
+			case []interface{}:
+				if f.kind == "list" {
+					for _, e := range v {
+						if em, isMap := e.(map[string]interface{}); isMap && !rCollisionFree(f.sub, em) {
+							return false
+						}
+					}
+				}
+			}
 		}
-		if seen[t] {
-			return false
-		}
-		seen[t] = true
+		return true
+	}
+	if !nested(fs, m) {
+		return false
 	}
 	for _, f := range fs {
-		if f.sub == nil {
+		if f.kind != "embedded" {
 			continue
 		}
-		key := f.goName
-		if f.clover != "" {
-			key = f.clover
+		if keys, ok = pass(keys, f.sub); !ok {
+			return false
 		}
-		if sub, ok := m[key].(map[string]interface{}); ok && !rCollisionFree(f.sub, sub) {
+		if !nested(f.sub, m) {
 			return false
 		}
 	}
@@ -596,6 +705,9 @@ func c18Rename(c *Ctx, dr *Driver, g *Gen) bool {
 			continue
 		}
 		line := J{"k": "rename", "doc": encDoc(m), "rtype": rDesc(fs)}
+		if rHasNewKinds(fs) || i%2 == 0 {
+			line = J{"k": "rename2", "doc": encDoc(m), "rt": rDesc2(fs)} // the model of the repaired function (every shape; conservative over the first)
+		}
 		c.Evals++
 		var got map[string]interface{}
 		pan := ""
@@ -617,7 +729,10 @@ func c18Rename(c *Ctx, dr *Driver, g *Gen) bool {
 		if canonDoc(got) != want && pending == nil {
 			pending = &Replay{Stream: "rename", Case: []interface{}{line}, Expected: []string{want}, Actual: []string{canonDoc(got)}}
 		}
-		c.NonTrivial("rename|" + fmt.Sprint(rDesc(fs)) + canonDoc(m))
+		c.NonTrivial("rename|" + fmt.Sprint(rDesc2(fs)) + canonDoc(m))
+		if rHasNewKinds(fs) {
+			c.Count("rename:embedded-or-container")
+		}
 		// the property itself on the implementation: a struct of this type converted to a document and
 		// unmarshalled back is unchanged (names that differ only in case are left out: encoding/json folds case)
 		if rFoldDistinct(fs) {
@@ -673,6 +788,33 @@ func rFill(g *Gen, fs []rField, v reflect.Value) {
 		fv := v.Field(i)
 		if f.sub == nil {
 			fv.SetInt(int64(1 + g.pick(1000)))
+			continue
+		}
+		fillOne := func(t reflect.Type) reflect.Value { // a value of the (possibly pointer) struct type t
+			if t.Kind() == reflect.Ptr {
+				p := reflect.New(t.Elem())
+				rFill(g, f.sub, p.Elem())
+				return p
+			}
+			e := reflect.New(t).Elem()
+			rFill(g, f.sub, e)
+			return e
+		}
+		switch f.kind {
+		case "list": // at least one element: a nil slice comes back as an empty one
+			n := 1 + g.pick(3)
+			sl := reflect.MakeSlice(fv.Type(), 0, n)
+			for k := 0; k < n; k++ {
+				sl = reflect.Append(sl, fillOne(fv.Type().Elem()))
+			}
+			fv.Set(sl)
+			continue
+		case "map":
+			mv := reflect.MakeMap(fv.Type())
+			for k := 0; k < 1+g.pick(2); k++ {
+				mv.SetMapIndex(reflect.ValueOf(fmt.Sprint("k", k)), fillOne(fv.Type().Elem()))
+			}
+			fv.Set(mv)
 			continue
 		}
 		if f.ptr {
